@@ -123,7 +123,7 @@ EXTRA6 = {
 EXTRA7 = {
  "C14": "; the plain and --lines texts are observed too (as multisets of lines, lists as sets: the statement allows any ordering of entries) wherever the working directory is the root; tree with six extension-less licence texts",
  "C08": "; token Y (the closing line of the header comment goes on with code and another comment); covered files named like table entries in another letter case (*.LICENSE)",
- "C10": "; a template holding a closed ignore block; values with any of the 10 line-boundary characters of str.splitlines(); --merge-copyrights after 1..3 annotated years x 10 x 10 prefixes, run three times",
+ "C10": "; a template holding a closed ignore block; values with any of the 10 line-boundary characters of str.splitlines(); --merge-copyrights after 1..3 annotated years x 10 x 10 prefixes, run three times; a commented block-comment template with values that hold the terminator",
  "C16": "; named pipes / directories at 7 names the tool opens by name x 5 commands as real processes with a time limit; expressions nested up to 380 levels",
  "C17": "; REUSE.toml as a named pipe; an exception or a project that no longer loads after a failed conversion is a violation",
  "C19": "; six local file-system failures (ENOTDIR, EISDIR, EFBIG by RLIMIT_FSIZE, failing open) with batch continuation and no partial file; a working directory unrelated to a root called LICENSES",
